@@ -193,6 +193,7 @@ func postStartReach(c *Ctx, roots []*ssa.Function, st *starterInfo, edgeOK func(
 // ---- main -----------------------------------------------------------------------------
 
 func runC07(c *Ctx, r *Report) {
+	importFoundation(c, r, "C07", "queue")
 	r.Rule("C07/K1", "a struct-field channel is not closed by one thread class while another class sends on it", 1)
 	r.Rule("C07/K2", "a struct-field channel is closed in an exported method only under a once-guard", 1)
 	r.Rule("C07/K3", "no blocking send/receive on an unbuffered struct-field channel on the API thread outside a select with an alternative", 1)
